@@ -37,6 +37,7 @@ def uniq_guarded(f, pt):
 def rules(ctx):
     from . import C06
     C06.c063(ctx)     # the scan's components (mem, imm, version, timestamp) are captured in one critical section
+    C06.c065(ctx)     # the timestamp a scan captures covers only batches that are completely inserted, together with all earlier ones
     c071(ctx)
     C08.c085(ctx, R="C07.2")
     C03.c031_store(ctx)
